@@ -266,9 +266,12 @@ class Methods:
                 return S.any_str(env, 0, None, S.join_cls(env, s) | S.DIGITS)
             if (s.lo or 0) >= n:
                 return s
-            if s.fixed:
+            if s.fixed and not (s.pre and env.cls(s.pre[0]) & self.B.cls_of_chars('+-')):
+                # (a leading sign would stay in front of the zeros)
                 k = n - len(s.pre)
                 return Str([self.B.cls_of_chars('0')] * k + list(s.pre))
+            if s.fixed:
+                return S.any_str(env, n, n, S.join_cls(env, s) | self.B.cls_of_chars('0'))
             # var: length becomes max(len, n): left padded with zeros
             cls = S.join_cls(env, s) | self.B.cls_of_chars('0')
             suf = s.suf
